@@ -251,7 +251,11 @@ class Weigher:
             if t[1] == 'not':
                 self.w(t[2])
                 return ZERO
-            return self.w(t[2])
+            a = self.w(t[2])
+            if self.mode == 'affine' and t[1] == '-':
+                # -(x + c s) = -x - c s: the additive charge changes sign
+                return self.mapw(lambda x: -x, a) if a not in (ANY, NA, UNK) else a
+            return a
         if k == 'cmp':
             a, b = self.w(t[2]), self.w(t[3])
             if t[1] in ('is', 'is not', 'in', 'not in'):
